@@ -118,6 +118,23 @@ def rule_WT1(ctx, tier):
     else:
         rr.fail("endpoint-strings", "Endpoint::fmt yields %s" % strs, where=ed.span)
     rr.require_floor(13, "WT1 instances")
+    # whatever the tower answered reaches the parser: once `send()` succeeded, `request` hands the response on as it is — the
+    # HTTP status is advisory, the JSON body (ApiError / reply) is the answer, also for the tower's own 503
+    rq = P.bodies.get("watchtower_plugin::net::http::request::{closure#0}")
+    if rq is None:
+        rr.anchor_missing("watchtower_plugin::net::http::request")
+    else:
+        before = ctx.pf.called_before(rq)
+        late = []
+        for bb in rq.rpo():
+            for s_ in rq.blocks[bb]["s"]:
+                if s_["k"] == "assign" and s_["rv"]["k"] == "agg" and s_["rv"].get("adt", "").endswith("net::http::RequestError") and any(n.endswith("RequestBuilder::send") for n in before.get(bb, set())):
+                    late.append(bb)
+        inspects = [call_target(t) for bb, t in rq.calls() if (call_target(t) or "").startswith("reqwest::Response::") and (call_target(t) or "").split("::")[-1] in ("status", "error_for_status", "error_for_status_ref", "headers", "content_length")]
+        if not late and not inspects:
+            rr.ok("client: a response that arrived is returned as it is (no status-based shortcut before parsing)")
+        else:
+            rr.fail("response-filtered-before-parsing", "`net::http::request` turns a response that did arrive into a RequestError (%s) before its body is parsed: the tower's own error object — e.g. 503 {service unavailable, code 32} — never reaches the client's logic" % (", ".join(sorted({shortfn(x) for x in inspects})) or "error built after send()"), where=rq.line_of((late or [0])[0]))
     return rr
 
 
